@@ -229,26 +229,28 @@ FullIter == IterFrom(retidx)
 ParentDesc(x) == IF x.par = 0 THEN NoneD ELSE Desc(nodes[x.par])
 
 (* terminal vector: everything the binding compares, all computed by TLC *)
-DefRank(x) == IF x = NoneD THEN 0 ELSE RankOf(x)
 Vector ==
+  LET S == DefSeq
+      Rk(x) == IF x = NoneD THEN 0 ELSE RankIn(S, x)
+      F == FullIter
+  IN
   [cfg   |-> [variant |-> variant, rootarg |-> rootarg, fragment |-> fragment, nsarg |-> nsarg],
    tree  |-> [n |-> n, par |-> par, knd |-> knd, txt |-> txt, tl |-> tl, nat |-> nat, decl |-> decl,
               pre |-> pre, post |-> post],
-   def   |-> [j \in 1..Len(DefSeq) |->
-                LET x == DefSeq[j] IN
+   def   |-> [j \in 1..Len(S) |->
+                LET x == S[j]  ch == DefChildren(x)  sv == DefStringValue(x) IN
                 [d  |-> <<x.k, x.src, x.sub>>,
-                 p  |-> DefRank(DefParent(x)),
-                 ch |-> [u \in 1..Len(DefChildren(x)) |-> RankOf(DefChildren(x)[u])],
-                 sv |-> [u \in 1..Len(DefStringValue(x)) |->
-                           LET c == DefStringValue(x)[u] IN <<c.k, c.src, c.sub>>],
+                 p  |-> Rk(DefParent(x)),
+                 ch |-> [u \in 1..Len(ch) |-> Rk(ch[u])],
+                 sv |-> [u \in 1..Len(sv) |-> <<sv[u].k, sv[u].src, sv[u].sub>>],
                  px |-> IF x.k = "e" THEN NsPrefixes(x.src) ELSE {}]],
-   built |-> [j \in 1..Len(FullIter) |->
-                LET x == FullIter[j] IN
+   built |-> [j \in 1..Len(F) |->
+                LET x == F[j] IN
                 <<x.k, x.src, x.sub, x.pos, IF x.par = 0 THEN 0 - 1 ELSE nodes[x.par].pos>>]]
 
 Report ==
   /\ pc = "ret"
-  /\ Emit => PrintT(<<"c02", Vector>>)
+  /\ Emit => PrintT(ToString(<<"c02", Vector>>))   \* one line per vector: atomic with many workers
   /\ pc' = "done"
   /\ UNCHANGED <<ivars, position, nodes, docidx, rootidx, retidx, sibk, cur, iters, parent, ancs, elem, child>>
 
